@@ -1548,8 +1548,24 @@ fn piece_start_facts(f: &FnInfo) -> Result<(u64, u64), String> {
     }
 }
 
+/// Target `fspanfacts` → `Generated/FSpanFacts.lean`: the arithmetic on byte positions in the literal decoders
+/// (`unescape_f_string_part`, `unescape_str`, `unescape_char`, src/parser/expr.rs). A target of its own: a decoder
+/// whose arithmetic is outside the understood shape fails THIS extraction (and the theorems of Props/C06FSpans),
+/// while the parser model, its driver and the differential run keep working.
+pub fn fspanfacts(repo: &Path) -> Result<String, String> {
+    let mut fns: Vec<FnInfo> = vec![];
+    let parsed = find::parse(repo, EXPR)?;
+    collect_fns(EXPR, &parsed.items, &mut fns);
+    let mut out = String::from(
+        "/- GENERATED by /verif/extract (target `fspanfacts`) from src/parser/expr.rs — do not edit.\n   Arithmetic on byte positions in the literal decoders (see extract/src/targets/c06_parse.rs, section C). -/\nnamespace RotoV.Gen.FSpanFacts\n\n",
+    );
+    out.push_str(&section_c(&fns)?);
+    out.push_str("end RotoV.Gen.FSpanFacts\n");
+    Ok(out)
+}
+
 fn section_c(fns: &[FnInfo]) -> Result<String, String> {
-    let mut out = String::from("/-! ## C. arithmetic on byte positions in the literal decoders -/\n\n");
+    let mut out = String::from("/-! ## arithmetic on byte positions in the literal decoders -/\n\n");
     let f = get(fns, EXPR, None, "unescape_f_string_part")?;
     let (init, step) = piece_start_facts(f)?;
     out.push_str(&format!(
@@ -1622,7 +1638,6 @@ pub fn parsefacts(repo: &Path) -> Result<String, String> {
         out.push_str(&sk.iter().map(|s| format!("  {}", lean_str(s))).collect::<Vec<_>>().join(",\n"));
         out.push_str("\n]\n\n");
     }
-    out.push_str(&section_c(&fns)?);
     out.push_str("end RotoV.Gen.ParseFacts\n");
     Ok(out)
 }
